@@ -581,7 +581,7 @@ def gen_flabels(rng):
         cells = [[V.element(dts[c], rng) for c in range(n)] for _ in range(n_oth)]
         spec = F.FrameSpec(oth, labels, oth_kind, kind, dts, cells, None)
     return {'kind': 'flabels', 'spec': spec, 'layout': _pick_layout(rng, spec.dtypes), 'axis': axis,
-            'depth': rng.choice(_DEPTHS[_depth_of(kind)]), 'cls': 'FrameGO' if rng.random() < 0.1 else 'Frame'}
+            'depth': rng.choice(_DEPTHS[_depth_of(kind)]), 'cls': 'FrameGO' if rng.random() < 0.2 else 'Frame'}
 
 
 def _win_series_spec(rng, n, kinds=('auto', 'str', 'int', 'IndexDate')):
@@ -1057,6 +1057,46 @@ def _check_fgroup(case, ctx):
              'apply': lambda: f.iter_group(key, axis=axis).apply(cnt),
              'items_apply': lambda: f.iter_group_items(key, axis=axis).apply(icnt)}
     _judge_group_forms(ctx, ('fgroup', repr(spec), repr(case['layout']), axis, form, tuple(keys), case.get('cls')), klass, members, ref, multi, calls)
+    _group_independence(ctx, f, klass, lambda: f.iter_group(key, axis=axis))
+
+
+def _group_independence(ctx, f, klass, make_groups):
+    """groups of a grow-only frame are containers of their own: a column added to the source afterwards must not appear in (or break)
+    a group taken before, and a column added to a group must not appear in the source."""
+    import static_frame as sf
+    if not isinstance(f, sf.FrameGO):
+        return
+    try:
+        groups = [g for g in make_groups() if isinstance(g, sf.Frame)][:3]
+    except Exception:
+        return
+    if not groups:
+        return
+    ctx.tally('group_independence', 'checked')
+    snaps = [canon.snap(g) for g in groups]
+    src = canon.snap(f)
+    try:
+        f['__source_growth__'] = np.arange(len(f.index))
+    except Exception as e:
+        ctx.tally('group_independence', 'growth_raised:' + type(e).__name__)
+        return
+    for g, before in zip(groups, snaps):
+        try:
+            same = canon.snap(g) == before and len(g.columns) == g.shape[1]
+        except Exception:
+            same = False
+        if not same:
+            ctx.violation('group_follows_growth_of_source', detail={'group_columns': [repr(c) for c in g.columns][:8], 'group_shape': g.shape}, klass=klass)
+            return
+    g0 = groups[0]
+    if isinstance(g0, sf.FrameGO):
+        grown_src = canon.snap(f)
+        try:
+            g0['__group_growth__'] = np.arange(len(g0.index))
+        except Exception:
+            return
+        if canon.snap(f) != grown_src or len(f.columns) != f.shape[1]:
+            ctx.violation('source_follows_growth_of_group', detail={'source_columns': [repr(c) for c in f.columns][:8], 'shape': f.shape}, klass=klass)
 
 
 def _axis1_key_info(spec, keys, key_rows):
@@ -1094,6 +1134,7 @@ def _check_flabels(case, ctx):
              'apply': lambda: f.iter_group_labels(depth, axis=axis).apply(cnt),
              'items_apply': lambda: f.iter_group_labels_items(depth, axis=axis).apply(icnt)}
     _judge_group_forms(ctx, ('flabels', repr(spec), repr(case['layout']), axis, repr(depth), case.get('cls')), klass, members, ref, multi, calls)
+    _group_independence(ctx, f, klass, lambda: f.iter_group_labels(depth, axis=axis))
 
 
 # -- windows ---------------------------------------------------------------------------
